@@ -1073,6 +1073,9 @@ func (c *c42run) corpus() {
 	} else {
 		c.fail("harness-ccf-structure", "unexpected structure of a typedef message", map[string]any{"bytes": hex(b)})
 	}
+	// distinct types with the same qualified identifier at different locations, different field orders
+	// and field counts, in one value (array elements, nested field, dictionary values, type values)
+	c.sameNameCorpus(func(v cadence.Value, origin string) { c.roundTrip(v, origin, "", true) })
 	// recursive types, capabilities, functions, optional chains
 	rf := make([]cadence.Field, 2)
 	rec := cadence.NewResourceType(loc, "Node", rf, nil)
@@ -1266,4 +1269,81 @@ func (c *c42run) numericRanges() {
 			}
 		}
 	}
+}
+
+
+// sameNameCorpus: composite / event / enum / resource types named C.Foo at two addresses and at other
+// location kinds, with fields declared in different orders and in different numbers.
+func (c *c42run) sameNameCorpus(run func(v cadence.Value, origin string)) {
+	sameNameValues(run)
+}
+
+func sameNameValues(run func(v cadence.Value, origin string)) {
+	addr := func(b byte) common.Location {
+		return common.AddressLocation{Address: common.Address{0, 0, 0, 0, 0, 0, 0, b}, Name: "C"}
+	}
+	intF := func(names ...string) []cadence.Field {
+		fs := make([]cadence.Field, len(names))
+		for i, n := range names {
+			fs[i] = cadence.Field{Identifier: n, Type: cadence.IntType}
+		}
+		return fs
+	}
+	ints := func(n int) []cadence.Value {
+		vs := make([]cadence.Value, n)
+		for i := range vs {
+			vs[i] = cadence.NewInt(i + 1)
+		}
+		return vs
+	}
+	anyArr := func(vs ...cadence.Value) cadence.Value {
+		return cadence.NewArray(vs).WithType(cadence.NewVariableSizedArrayType(cadence.AnyStructType))
+	}
+	type mk func(loc common.Location, fs []cadence.Field) cadence.Value
+	kinds := map[string]mk{
+		"struct": func(loc common.Location, fs []cadence.Field) cadence.Value {
+			return cadence.NewStruct(ints(len(fs))).WithType(cadence.NewStructType(loc, "C.Foo", fs, nil))
+		},
+		"resource": func(loc common.Location, fs []cadence.Field) cadence.Value {
+			return cadence.NewResource(ints(len(fs))).WithType(cadence.NewResourceType(loc, "C.Foo", fs, nil))
+		},
+		"event": func(loc common.Location, fs []cadence.Field) cadence.Value {
+			return cadence.NewEvent(ints(len(fs))).WithType(cadence.NewEventType(loc, "C.Foo", fs, nil))
+		},
+		"contract": func(loc common.Location, fs []cadence.Field) cadence.Value {
+			return cadence.NewContract(ints(len(fs))).WithType(cadence.NewContractType(loc, "C.Foo", fs, nil))
+		},
+	}
+	names := []string{"struct", "resource", "event", "contract"}
+	orders := [][2][]string{
+		{{"a", "b"}, {"b", "a"}},
+		{{"b", "a"}, {"a", "b"}},
+		{{"x", "aa", "b"}, {"aa", "b", "x"}},
+		{{"a", "b"}, {"c", "a", "b"}}, // different field counts
+		{{"c", "b", "a"}, {"b", "a"}},
+		{{"a", "b"}, {"a", "b"}},
+	}
+	for _, kn := range names {
+		k := kinds[kn]
+		for i, o := range orders {
+			v1, v2 := k(addr(1), intF(o[0]...)), k(addr(2), intF(o[1]...))
+			run(anyArr(v1, v2), fmt.Sprintf("corpus:same-name:%s:%d", kn, i))
+			run(anyArr(v2, v1, v2), fmt.Sprintf("corpus:same-name:%s:%d", kn, i))
+		}
+	}
+	// other location kinds; mixed kinds; nested in a field; in dictionary values; with type values
+	s1 := kinds["struct"](addr(1), intF("a", "b"))
+	s2 := kinds["struct"](common.StringLocation("test"), intF("b", "a"))
+	s3 := kinds["event"](common.IdentifierLocation("id"), intF("b", "c", "a"))
+	s4 := kinds["struct"](common.TransactionLocation{1}, intF("z", "y"))
+	run(anyArr(s1, s2, s3, s4), "corpus:same-name:locations")
+	outerT := cadence.NewStructType(addr(3), "C.Foo", []cadence.Field{{Identifier: "q", Type: s2.Type()}, {Identifier: "p", Type: s1.Type()}}, nil)
+	run(cadence.NewStruct([]cadence.Value{s2, s1}).WithType(outerT), "corpus:same-name:nested")
+	run(cadence.NewDictionary([]cadence.KeyValuePair{{Key: cadence.String("x"), Value: s1}, {Key: cadence.String("y"), Value: s2}, {Key: cadence.String("z"), Value: s4}}).WithType(
+		cadence.NewDictionaryType(cadence.StringType, cadence.AnyStructType)), "corpus:same-name:dictionary")
+	run(anyArr(cadence.NewTypeValue(s1.Type()), s2, cadence.NewTypeValue(s2.Type()), s1), "corpus:same-name:type-values")
+	// enums with the same name at two addresses
+	e1 := cadence.NewEnum([]cadence.Value{cadence.UInt8(1)}).WithType(cadence.NewEnumType(addr(1), "C.Kind", cadence.UInt8Type, []cadence.Field{{Identifier: "rawValue", Type: cadence.UInt8Type}}, nil))
+	e2 := cadence.NewEnum([]cadence.Value{cadence.Int16(-2)}).WithType(cadence.NewEnumType(addr(2), "C.Kind", cadence.Int16Type, []cadence.Field{{Identifier: "rawValue", Type: cadence.Int16Type}}, nil))
+	run(anyArr(e1, e2, s1), "corpus:same-name:enum")
 }
